@@ -151,6 +151,6 @@ fn logical_op__precedence_order() {
 //    including `dyn Fn` drop glue over every closure).
 //  * the real parser (`LogicalExpr::lex_with`) on the CONCRETE input "a or b and c xor d",
 //    with `Scheme::get` replaced by its contract (linear search) and `Regex::new` by a
-//    must-not-be-reached stub: no result in 15 min - every failed alternative of the
+//    must-not-be-reached stub (also with `std::mem::drop` leaked and minisat): no result in 20 min - every failed alternative of the
 //    recursive descent drops a `LexErrorKind`, whose drop glue (BTreeSet-backed
 //    `ExpectedTypeList`) CBMC explores because the variant tag is not folded.
